@@ -41,6 +41,9 @@ CHECKS['C16'] = ('property-based testing with a differential oracle: the same ca
 CHECKS['C12'] = ('property-based testing: generated update/load histories, JSON round-trip oracle (equal recipe, equal resolution grid, byte-identical quantize output, save() contents) + enumeration of shipped recipe files',
   'Recipes reachable by generated update/load sequences (all algorithms, skip_checks, enum- or string-valued arguments, default config, no_quantize rules with a config) are exported, passed through json.dumps/loads and loaded into a fresh Quantizer: the exported recipes must be equal, resolve identically on a 6x8 (operator, scope) grid, and quantize a generated model with the same statistics to byte-identical output; save() must write exactly that JSON and model. Every file under recipes/ must load and the default files must re-export to themselves (complete enumeration).',
   'Recipe equality is judged on the JSON level (what save() writes).', 'DESIGN.md 4 C12')
+CHECKS['C14'] = ('property-based testing over generated call histories (sequence generation with shrinking), snapshot-equality and fresh-instance / fresh-process differential oracles',
+  'Generated histories of recipe / calibrate (optionally resumed) / quantize (with the SHARED calibration result object) / validate calls on one or two Quantizer objects over a generated model: after every call each caller-owned object (model bytes, recipe list passed in, calibration data, previous result, calibration result, test data) must be deep-equal (numpy-aware: dtype, shape, values, key order) to its snapshot; every quantize() output must have the sha256 of a fresh Quantizer given deep copies of the same arguments; a sample of triples is re-executed in fresh processes under PYTHONHASHSEED 1 and 12345.',
+  'load_config_policy excluded from the alphabet; fresh-process comparison is sampled (1/32 quick, 1/12 thorough of the cases that quantize).', 'DESIGN.md 4 C14')
 NOT_APPLICABLE = {}
 
 def main():
